@@ -35,6 +35,7 @@ var (
 	inner    = common.HexToAddress("0x1111e70000000000000000000000000000000005")
 	inner2   = common.HexToAddress("0x2222e70000000000000000000000000000000006")
 	drvAddr  = common.HexToAddress("0xd71ce70000000000000000000000000000000007")
+	loopAddr = common.HexToAddress("0x100be70000000000000000000000000000000008")
 )
 
 // scenario = what the transaction calls / creates
@@ -47,6 +48,7 @@ type scenario struct {
 	calleeBal *big.Int
 	extra    []Acct          // additional accounts
 	needGas  uint64          // execution gas that is certainly enough
+	loopCreate bool          // the callee CREATEs in a loop: its creation addresses belong to the universe
 	wantCounter *uint64      // refund counter the execution must end with when it runs to completion (independent expectation)
 	byzOnly  bool            // uses REVERT
 }
@@ -67,7 +69,7 @@ func scenarios(sender common.Address, senderNonce uint64) []scenario {
 		return scenario{name: fmt.Sprintf("sstore-clear%d-reset%d", k, r), to: callee, code: a.Op(STOP).B, storage: st, needGas: 100000}
 	}
 	createdAddr := crypto.CreateAddress(sender, senderNonce)
-	return []scenario{
+	base := []scenario{
 		{name: "eoa-fresh", to: fresh, needGas: 0},
 		{name: "eoa-existing", to: sink, needGas: 0},
 		{name: "to-self", to: sender, needGas: 0},
@@ -117,6 +119,63 @@ func scenarios(sender common.Address, senderNonce uint64) []scenario {
 		{name: "create-collision", create: true, code: A().SStore(0, 1).Op(STOP).B, extra: []Acct{{Addr: createdAddr, Nonce: 1}}, needGas: 60000},
 		{name: "create-on-funded-address", create: true, code: InitReturning(A().Op(STOP).B), extra: []Acct{{Addr: createdAddr, Bal: big.NewInt(5)}}, needGas: 60000},
 	}
+	return append(base, loopScenarios()...)
+}
+
+// loopScenarios: the callee runs 10..40 iterations of one call-family instruction (CALL, CALLCODE, DELEGATECALL, STATICCALL,
+// CREATE) with value 0 / 1 and gas operand 0 (so a value-bearing call runs on the stipend alone), to a callee without
+// code, with trivial code, a precompile, or the contract itself: gas must be conserved through every frame
+func loopScenarios() []scenario {
+	A := func() *Asm { return &Asm{} }
+	trivial := inner2 // holds `STOP`
+	type tgt struct {
+		name string
+		a    common.Address
+	}
+	tgts := []tgt{{"no-code", sink}, {"trivial-code", trivial}, {"precompile", common.BytesToAddress([]byte{4})}, {"self", callee}, {"missing", fresh}}
+	var out []scenario
+	k := 0
+	loop := func(body func(a *Asm), n uint64) []byte {
+		a := A().Push(n).Op(JUMPDEST) // counter; loop head at offset 2
+		body(a)
+		return a.Push(1).Op(0x90, 0x03, 0x80).Push(2).Op(JUMPI, STOP).B // PUSH1 1 SWAP1 SUB DUP1 PUSH1 2 JUMPI STOP
+	}
+	for _, op := range []struct {
+		name string
+		code byte
+		val  bool
+	}{{"CALL", 0xf1, true}, {"CALLCODE", 0xf2, true}, {"DELEGATECALL", 0xf4, false}, {"STATICCALL", 0xfa, false}} {
+		for _, t := range tgts {
+			for _, v := range []uint64{0, 1} {
+				if v == 1 && !op.val {
+					continue
+				}
+				if t.name == "self" && v == 0 && op.code == 0xf1 {
+					continue // unbounded recursion through the gas operand is not the point here
+				}
+				k++
+				n := uint64(10 + (k*7)%31)
+				opc, target, val, hasVal := op.code, t.a, v, op.val
+				code := loop(func(a *Asm) {
+					a.Push(0).Push(0).Push(0).Push(0)
+					if hasVal {
+						a.Push(val)
+					}
+					a.PushAddr(target).Push(0).Op(opc).Op(POP)
+				}, n)
+				out = append(out, scenario{name: fmt.Sprintf("loop:%s:value=%d:%s:x%d", op.name, v, t.name, n), to: callee, code: code, calleeBal: big.NewInt(100),
+					extra: []Acct{{Addr: trivial, Code: []byte{STOP}}}, needGas: 40*36000 + 20000, loopCreate: false})
+			}
+		}
+	}
+	for _, v := range []uint64{0, 1} {
+		k++
+		n := uint64(10 + (k*7)%31)
+		val := v
+		code := loop(func(a *Asm) { a.Create(val, A().Op(STOP).B).Op(POP) }, n)
+		out = append(out, scenario{name: fmt.Sprintf("loop:CREATE:value=%d:x%d", v, n), to: callee, code: code, calleeBal: big.NewInt(100), needGas: 41*60000, loopCreate: true})
+	}
+	return out
 }
 
 func u64p(x uint64) *uint64 { return &x }
@@ -431,7 +490,13 @@ func (k *txCase) finish(byz bool) {
 		}
 	}
 	k.u = Universe{k.sender, coinbase, sink, fresh, callee, inner, inner2, common.BytesToAddress([]byte{4}), common.BytesToAddress([]byte{3}), common.BytesToAddress([]byte{2}),
-		crypto.CreateAddress(k.sender, k.stNonce), crypto.CreateAddress(callee, 0), crypto.CreateAddress(callee, 1)}.Sorted()
+		crypto.CreateAddress(k.sender, k.stNonce), crypto.CreateAddress(callee, 0), crypto.CreateAddress(callee, 1)}
+	if k.sc.loopCreate {
+		for n := uint64(0); n < 44; n++ {
+			k.u = append(k.u, crypto.CreateAddress(callee, n))
+		}
+	}
+	k.u = k.u.Sorted()
 	fmtByz := "pre-byz"
 	if byz {
 		fmtByz = "byz"
@@ -586,7 +651,7 @@ func runCase(c *vh.Ctx, m *vh.Model, k *txCase) {
 	tx := k.tx()
 	// the composed model (EVM of Evm/Interp.v inside the transaction model) applies to message calls under the mainnet
 	// configuration whose callee is not a precompile (the composed environment has no precompile oracle)
-	composed := k.cc.cfg.Token == "b0" && !k.sc.create && !strings.HasPrefix(k.sc.name, "precompile") && k.emptyMask&0x1c == 0
+	composed := k.cc.cfg.Token == "b0" && !k.sc.create && !strings.HasPrefix(k.sc.name, "precompile") && !strings.Contains(k.sc.name, ":precompile:") && k.emptyMask&0x1c == 0
 	preContent := ""
 	if composed {
 		preContent = DumpContent(sdb, k.u, true)
@@ -788,6 +853,12 @@ func runCase(c *vh.Ctx, m *vh.Model, k *txCase) {
 		if k.limit-t.GasGiven != intr {
 			c.Violate("intrinsic-gas/"+k.sc.name, fmt.Sprintf("charged %d want %d", k.limit-t.GasGiven, intr), replay)
 		}
+		if t.GasLeft > k.limit-intr || t.GasLeft > t.GasGiven {
+			c.Violate("tx-gas-left-exceeds-limit/"+k.sc.name, fmt.Sprintf("the execution ended with %d gas, it was given %d (limit %d, intrinsic %d)", t.GasLeft, t.GasGiven, k.limit, intr), replay)
+		}
+		if t.GasIncreased != "" {
+			c.Violate("frame-gas-increases/"+k.sc.name, "inside one frame the gas available rose between two instructions (a callee handed back more than it was given plus the stipend paid for): "+t.GasIncreased, replay)
+		}
 		consumed := k.limit - t.GasLeft
 		refund := consumed - usedGas
 		if consumed < intr || consumed > k.limit || t.GasLeft > t.GasGiven {
@@ -925,6 +996,10 @@ func genBlock(c *vh.Ctx) *blockCase {
 	for _, v := range []uint64{0, 5, 0, 0, 0} {
 		driver.Call(70000, inner2, v).Op(POP)
 	}
+	// a contract that loops a value-bearing CALLCODE / CALL (gas operand 0: stipend only) onto an account without code
+	lp := A().Push(uint64(12 + r.Intn(25))).Op(JUMPDEST)
+	lp.Push(0).Push(0).Push(0).Push(0).Push(1).PushAddr(sink).Push(0).Op([]byte{0xf2, 0xf1}[r.Intn(2)]).Op(POP)
+	b.world = append(b.world, Acct{Addr: loopAddr, Code: lp.Push(1).Op(0x90, 0x03, 0x80).Push(2).Op(JUMPI, STOP).B, Bal: big.NewInt(100)})
 	b.world = append(b.world, Acct{Addr: inner2, Code: target, Bal: big.NewInt(10), Storage: map[byte]byte{0: 1}}, Acct{Addr: drvAddr, Code: driver.Op(STOP).B, Bal: big.NewInt(30)})
 	nonce := map[common.Address]uint64{addrA: 3, addrB: 0}
 	n := r.Intn(5) // 0..4 transactions: empty blocks too
@@ -937,7 +1012,7 @@ func genBlock(c *vh.Ctx) *blockCase {
 		}
 		price := big.NewInt(int64(r.Intn(3)))
 		var tx *types.Transaction
-		kind := r.Intn(6)
+		kind := r.Intn(7)
 		limit := uint64(100000)
 		switch kind {
 		case 0:
@@ -947,6 +1022,9 @@ func genBlock(c *vh.Ctx) *blockCase {
 			tx = types.NewTransaction(nonce[from], callee, big.NewInt(0), limit, price, []byte{1, 0})
 		case 2:
 			tx = types.NewTransaction(nonce[from], inner, big.NewInt(1), limit, price, nil)
+		case 6:
+			limit = 900000
+			tx = types.NewTransaction(nonce[from], loopAddr, big.NewInt(0), limit, big.NewInt(int64(1+r.Intn(2))), nil)
 		case 5:
 			limit = 500000
 			tx = types.NewTransaction(nonce[from], drvAddr, big.NewInt(0), limit, price, nil)
@@ -956,7 +1034,7 @@ func genBlock(c *vh.Ctx) *blockCase {
 			tx = types.NewTransaction(nonce[from], fresh, big.NewInt(0), 21000, price, nil)
 			limit = 21000
 		}
-		kinds = append(kinds, []string{"transfer", "call-clear", "call-fail", "create", "zero-to-fresh", "multi-destruct-driver"}[kind])
+		kinds = append(kinds, []string{"transfer", "call-clear", "call-fail", "create", "zero-to-fresh", "multi-destruct-driver", "call-family-loop"}[kind])
 		// sometimes break the nonce sequence
 		if r.Intn(25) == 0 {
 			tx = types.NewTransaction(nonce[from]+1, sink, big.NewInt(5), 21000, price, nil)
@@ -989,7 +1067,7 @@ func genBlock(c *vh.Ctx) *blockCase {
 		b.claimMode = []string{"+1", "-1", "zero", "limit"}[r.Intn(4)]
 		kinds = append(kinds, "claimed-gas-used:"+b.claimMode)
 	}
-	b.u = Universe{addrA, addrB, coinbase, sink, fresh, callee, inner, inner2, drvAddr,
+	b.u = Universe{addrA, addrB, coinbase, sink, fresh, callee, inner, inner2, drvAddr, loopAddr,
 		crypto.CreateAddress(addrA, 3), crypto.CreateAddress(addrA, 4), crypto.CreateAddress(addrA, 5), crypto.CreateAddress(addrA, 6), crypto.CreateAddress(addrA, 7),
 		crypto.CreateAddress(addrB, 0), crypto.CreateAddress(addrB, 1), crypto.CreateAddress(addrB, 2), crypto.CreateAddress(addrB, 3), crypto.CreateAddress(addrB, 4)}.Sorted()
 	fmtByz := "pre-byz"
@@ -1113,6 +1191,16 @@ func runBlock(c *vh.Ctx, m *vh.Model, b *blockCase) {
 		}
 		if tampered != (verr != nil) {
 			c.Violate(fmt.Sprintf("validate-state-gas-used/txs=%d/claim=%s", len(b.txs), b.claimMode), fmt.Sprintf("header claims gas used %d, the receipts sum to %d, ValidateState says %v", header.GasUsed, sumUsed, verr), map[string]interface{}{"class": b.class})
+		}
+		sumBig := new(big.Int)
+		for _, r := range pr {
+			sumBig.Add(sumBig, U(r.GasUsed))
+			if r.GasUsed > 8000000 {
+				c.Violate("receipt-gas-used-above-any-limit/block", fmt.Sprintf("a receipt reports gas used %d", r.GasUsed), map[string]interface{}{"class": b.class})
+			}
+		}
+		if sumBig.Cmp(U(pused)) != 0 || sumBig.Cmp(U(b.limit)) > 0 {
+			c.Violate("block-gas-sum-wraps/block", fmt.Sprintf("sum of the receipts' gas used %s (exact), block reports %d, limit %d", sumBig, pused, b.limit), map[string]interface{}{"class": b.class})
 		}
 		if pused > b.limit {
 			c.Violate("block-gas-above-limit", fmt.Sprintf("used %d limit %d", pused, b.limit), map[string]interface{}{"class": b.class})
